@@ -65,6 +65,30 @@ def exception_shape(fn, F, li):
     return True
 
 
+def header_loops_terminate(rep, ctx, mod, cg, prefix="C13."):
+    """for C05: a well-formed header is *returned* - so every loop of the header reader and what it calls has a termination witness (the
+    classification of R1, restricted to lib/lha_file_header.c and lib/ext_header.c; listed exceptions and narrow-counter listings as in R1)"""
+    rid = rep.rule(prefix + "R1", "every loop of the header parser has a termination witness", 10)
+    for fn in mod.defined():
+        if not fn.file.endswith(("lha_file_header.c", "ext_header.c")) or not fn.loops():
+            continue
+        F = ctx.facts(fn)
+        infos = classify(fn, F, cg)
+        for li in infos:
+            where = "%s:%s (%s)" % (fn.file, li.line, fn.cname)
+            if li.cls is not None:
+                rep.ok(rid, "%s loop at line %s: class %s" % (fn.cname, li.line, li.cls), li.witness, where)
+            elif li.narrow and fn.cname in IV32_LISTED:
+                rep.assumed(rid, "%s loop at line %s: counted, %d-bit counter against a %d-bit bound" % (fn.cname, li.line, li.narrow[0], li.narrow[1]),
+                            "A-iv32:%s" % fn.cname, IV32_LISTED[fn.cname], where)
+            else:
+                rep.violation(rid, "%s: loop at line %s has no termination witness" % (fn.cname, li.line), where,
+                              ("the %d-bit counter cannot reach %s: it wraps first; " % (li.narrow[0], li.narrow[2]) if li.narrow else "") +
+                              ("the loop continues under '%s', which can never fail at an extreme bound; " % li.wrap if li.wrap else "") +
+                              "lha_file_header_read does not return for some well-formed header: the header is never handed to the caller",
+                              function=fn.cname, obj="loop")
+
+
 def run(tier, seed):
     rep = Report("C13", tier, "other",
                  "Static termination classification of every natural loop of lib/ and src/ (counted induction with an invariant "
